@@ -68,6 +68,11 @@ def gen_dirs(rng, m, order=None, exact=True, full=True):
         d = np.roll(base, 1)  # last direction first: seam between stored[0] and stored[1]
     elif order == "reversed":
         d = base[::-1].copy()
+    elif order == "shuffled":
+        # stored in no particular order (e.g. 0, 180, 90, 270): the first two stored directions need not be neighbours
+        perm = list(range(m))
+        rng.shuffle(perm)
+        d = base[perm].copy()
     elif order == "sorted360":
         # the same full-circle grid with the north bin labelled 360 instead of 0 (dd, 2dd, …, 360)
         d = base.copy()
